@@ -219,8 +219,23 @@ class StoryScenario(explore.Scenario):
             else:
                 raise ValueError(op)
         except Exception as e:  # noqa
+            # a legal operation that raises is a finding of the properties
+            # that own the operation, not of whichever check happens to run
+            owners = {
+                "kmove": ("C04", "C16"), "bmove": ("C04", "C16"),
+                "smove": ("C04", "C16"), "mmove": ("C04", "C16"),
+                "ymove": ("C04", "C16", "C10"), "pmove": ("C04", "C16"),
+                "mods_reverse": ("C04", "C16"),
+                "koff": ("C05",), "ksize": ("C05",),
+                "baddr": ("C06",), "bsize": ("C06", "C19"),
+                "expr_set": ("C13", "C16"), "expr_del": ("C13", "C16"),
+                "yname": ("C10",), "ypayload": ("C10",),
+                "eadd": ("C11",), "edisc": ("C11",), "cfg_clear": ("C11",),
+                "lookups": ("C05", "C06", "C10", "C11", "C13"),
+            }.get(kind, ())
             return [("%s/story:operation-raises:%s:%s"
-                     % (self.prop, kind, type(e).__name__), "%s: %r" % (op, e))]
+                     % (p_, kind, type(e).__name__), "%s: %r" % (op, e))
+                    for p_ in owners]
         return []
 
     # --------------------------------------------------------------- checks
